@@ -458,6 +458,7 @@ exit:
 type iptr struct {
 	insts   []inst
 	capture int
+	closed  map[int]bool // captures a back-reference may name: closed or position captures
 }
 
 func compilePattern(p pattern, ps ...*iptr) []inst {
@@ -465,7 +466,7 @@ func compilePattern(p pattern, ps ...*iptr) []inst {
 	toplevel := false
 	if len(ps) == 0 {
 		toplevel = true
-		ptr = &iptr{[]inst{inst{opSave, nil, 0, -1}}, 2}
+		ptr = &iptr{[]inst{inst{opSave, nil, 0, -1}}, 2, map[int]bool{}}
 	} else {
 		ptr = ps[0]
 	}
@@ -500,6 +501,7 @@ func compilePattern(p pattern, ps ...*iptr) []inst {
 		}
 	case *posCapPattern:
 		ptr.insts = append(ptr.insts, inst{opPSave, nil, ptr.capture, -1})
+		ptr.closed[ptr.capture] = true
 		ptr.capture += 2
 	case *capPattern:
 		c0, c1 := ptr.capture, ptr.capture+1
@@ -507,9 +509,13 @@ func compilePattern(p pattern, ps ...*iptr) []inst {
 		ptr.insts = append(ptr.insts, inst{opSave, nil, c0, -1})
 		compilePattern(pat.Pattern, ptr)
 		ptr.insts = append(ptr.insts, inst{opSave, nil, c1, -1})
+		ptr.closed[c0] = true
 	case *bracePattern:
 		ptr.insts = append(ptr.insts, inst{opBrace, nil, pat.Begin, pat.End})
 	case *numberPattern:
+		if !ptr.closed[pat.N*2] { // not yet closed (or never opened) at this point of the pattern
+			panic(newError(_UNKNOWN, "invalid capture index"))
+		}
 		ptr.insts = append(ptr.insts, inst{opNumber, nil, pat.N, -1})
 	}
 	if toplevel {
@@ -595,6 +601,9 @@ redo:
 		idx := inst.Operand1 * 2
 		if idx >= m.CaptureLength()-1 {
 			panic(newError(_UNKNOWN, "invalid capture index"))
+		}
+		if m.IsPosCapture(idx) { // lstrlib: a position capture never matches as a back-reference
+			return false, sp, m
 		}
 		capture := src[m.Capture(idx):m.Capture(idx+1)]
 		for i := 0; i < len(capture); i++ {
